@@ -1,4 +1,5 @@
 import Cuke.Lemmas.Sched
+import Cuke.Lemmas.SchedRetry
 import Cuke.Model.SchedLts
 import Cuke.Props.C10
 /-!
@@ -124,5 +125,88 @@ theorem end_label_checked (c : SCfg) (s : SState) (id : Nat) (failed retried : B
 example : nextTry (some ⟨⟨0, 2⟩, some 5⟩) true = some ⟨⟨1, 1⟩, some 5⟩ := by decide
 example : iterTry 2 ⟨Retries.initial 2, none⟩ = some ⟨⟨2, 0⟩, none⟩ := by decide
 example : iterTry 3 ⟨Retries.initial 2, none⟩ = none := by decide
+
+
+/-! ## Whole runs: no attempt beyond the budget, in any run of any length
+
+Over every log the scheduler LTS replays without a disagreement of the classes R (retry decision) and Q
+(queue discipline) — Lemmas/SchedRetry.lean. -/
+
+open Cuke.SchedRetry in
+/-- **Lineage.** Every entry the scheduler holds at any moment of any clean run — queued, just handed out, or
+    running — descends from the entry `Features::insert` built for a scenario of a delivered feature: the same
+    scenario, the same serial flag, and its retry options are the initial ones moved some steps by `next_try`
+    (`current + left` unchanged, same delay; no options stay no options). -/
+theorem lts_retry_lineage (c : SCfg) (ls : List Label) (hg : GoodRQ (accept c ls) = true) :
+    ∀ e ∈ ents (accept c ls), ∃ e0, Origin c e0 ∧ Desc e0 e :=
+  foldl_rinv c ls {} (by intro e he; simp [ents, Queues.empty] at he) hg
+
+theorem initial_current_zero (c : SCfg) (ft : SFeat) (e0 : Entry) (o0 : RetryOptions) (h : e0 ∈ newEntries c ft)
+    (hr : e0.ret = some o0) : o0.retries.current = 0 := by
+  simp only [newEntries, List.mem_map] at h
+  obtain ⟨rs, _, rfl⟩ := h
+  simp only [parseFromTags] at hr
+  split at hr
+  · simp only [Option.some.injEq] at hr
+    subst hr
+    rfl
+  · cases hr
+
+open Cuke.SchedRetry in
+/-- **Within budget, over whole runs.** In every clean run, an attempt that is queued, handed out or running with
+    retry counter `current` belongs to a scenario whose resolved budget `N` (what `parse_from_tags` gave it when
+    its feature was delivered) satisfies `current + left = N` — so `current ≤ N`: at most `N + 1` attempts, the
+    last one with `left = 0` (which `next_try` refuses to retry, `retry_iff_failed_and_budget`); and the delay
+    it carries is the scenario's own. -/
+theorem lts_attempt_within_budget (c : SCfg) (ls : List Label) (hg : GoodRQ (accept c ls) = true)
+    (e : Entry) (he : e ∈ ents (accept c ls)) (o : RetryOptions) (hr : e.ret = some o) :
+    ∃ e0 o0, Origin c e0 ∧ e0.key = e.key ∧ e0.ret = some o0 ∧ o0.retries.current = 0 ∧
+      o.retries.current + o.retries.left = o0.retries.left ∧ o.retries.current ≤ o0.retries.left ∧ o.after = o0.after := by
+  obtain ⟨e0, horig, hk, _, hd⟩ := lts_retry_lineage c ls hg e he
+  rw [hr] at hd
+  cases h0 : e0.ret with
+  | none => simp [h0, retDesc] at hd
+  | some o0 =>
+    rw [h0] at hd
+    simp only [retDesc] at hd
+    obtain ⟨ft, _, hmem⟩ := horig
+    have hz := initial_current_zero c ft e0 o0 hmem h0
+    refine ⟨e0, o0, ⟨ft, ‹_›, hmem⟩, hk.symm, h0, hz, by omega, by omega, hd.2⟩
+
+open Cuke.SchedRetry in
+/-- **Never retried without options, over whole runs.** A scenario that resolved to no retry options stays
+    without them in every entry ever made for it — so `next_try` never grants it a second attempt. -/
+theorem lts_no_options_never_retried (c : SCfg) (ls : List Label) (hg : GoodRQ (accept c ls) = true)
+    (e : Entry) (he : e ∈ ents (accept c ls)) (hr : e.ret = none) (failed : Bool) :
+    nextTry e.ret failed = none := by
+  rw [hr]; rfl
+
+/-! non-vacuity: a clean run with a retried attempt — the second attempt is running with `current = 1, left = 1`
+    of a budget of 2 -/
+def sr : SScen := ⟨1, ["retry(2)"], 1⟩
+def rcfg : SCfg :=
+  { builderConc := some (some 2), cliConc := none, builderFF := false, cliFF := false, builderRetries := none,
+    cliRetries := none, builderAfter := none, cliAfter := none, customWhich := false, durTable := [],
+    feats := [⟨0, [], [sr], []⟩] }
+def k1 : ScenKey := ⟨0, none, 1⟩
+def rlog : List Label :=
+  [.hookTake, .tx .started, .pOk 0, .ins 0 [] [⟨10, 1, some ⟨0, 2⟩, none⟩], .pEnd, .tx (.parsingFinished 1 0 1 1 0), .pFinish,
+   .get1 1 (some 2) 0 1, .get2 1 (.cont (some 2)) [10] false 0, .tx (.featStarted 0), .disp 1 (.cont (some 1)),
+   .tx (.scen k1 (some ⟨0, 2⟩) .started), .tx (.scen k1 (some ⟨0, 2⟩) .finished),
+   .ins 2 [] [⟨11, 1, some ⟨1, 1⟩, none⟩], .endA 10 true true 2,
+   .cons true, .notif 10 true true,
+   .get1 3 (some 2) 0 1, .get2 3 (.cont (some 2)) [11] false 0, .disp 1 (.cont (some 1)),
+   .tx (.scen k1 (some ⟨1, 1⟩) .started), .tx (.scen k1 (some ⟨1, 1⟩) .finished), .endA 11 false false 4,
+   .cons true, .notif 11 false false, .tx (.featFinished 0),
+   .get1 5 (some 2) 0 0, .get2 5 (.cont (some 2)) [] false 0, .idle true false, .tx .finished, .hookRestore, .exit]
+
+example : (finalChecks (accept rcfg rlog)).dis.isEmpty = true ∧ Cuke.SchedRetry.GoodRQ (accept rcfg rlog) = true := by
+  decide +kernel
+example : (accept rcfg (rlog.take 20)).running.map (fun e => (e.id, e.ret.map (·.retries))) = [(11, some ⟨1, 1⟩)] := by
+  decide +kernel
+/-- an entry numbered beyond the budget (`current = 3` of 2) shows up as a disagreement of class R / Q — such logs are
+    outside the theorem's hypothesis for the right reason -/
+example : Cuke.SchedRetry.GoodRQ (accept rcfg (rlog.take 22 ++ [.ins 4 [] [⟨12, 1, some ⟨2, 0⟩, none⟩], .ins 5 [] [⟨13, 1, some ⟨3, 0⟩, none⟩]])) = false := by
+  decide +kernel
 
 end Cuke.C05
